@@ -99,6 +99,24 @@ def extract():
                                      "catch(constIPhreeqcStop&)", "this->update_errors();", "returnthis->PhreeqcPtr->get_input_errors();")]
         fact(f"{fn}_order_clear_reset_run_update_return", all(x >= 0 for x in order) and order == sorted(order) and b.endswith("returnthis->PhreeqcPtr->get_input_errors();"),
              f"IPhreeqc.cpp {fn}")
+    # input-stream stack: pushed by do_run, released by the API functions after their catch blocks (Model/ErrAcct `streamsAfterCall`)
+    for fn in ("RunString", "RunFile", "RunAccumulated"):
+        b = squeeze(body_of(ip, fn, "IPhreeqc"))
+        fact(f"{fn}_clears_istream_after_catch_blocks",
+             b.endswith("this->update_errors();this->PhreeqcPtr->phrq_io->clear_istream();returnthis->PhreeqcPtr->get_input_errors();") and
+             b.rfind("catch(") < b.rfind("clear_istream()"), f"IPhreeqc.cpp {fn}")
+    for fn in ("load_db", "load_db_str"):
+        b = squeeze(body_of(ip, fn, "IPhreeqc"))
+        fact(f"{fn}_clears_istream_after_catch_blocks", 0 <= b.rfind("catch(") < b.rfind("this->PhreeqcPtr->phrq_io->clear_istream();"), f"IPhreeqc.cpp {fn}")
+    dr0 = squeeze(body_of(ip, "do_run", "IPhreeqc"))
+    fact("do_run_pushes_the_callers_stream_unowned_and_never_releases", "this->PhreeqcPtr->phrq_io->push_istream(pis,false);" in dr0 and "clear_istream" not in dr0
+         and "pop_istream" not in dr0, "IPhreeqc.cpp do_run")
+    gl = squeeze(body_of(pio, "get_line"))
+    fact("get_line_include_missing_is_stop_error_open_is_push_eof_is_pop",
+         "deletenext_stream;" in gl and "error_msg(errstr.str().c_str(),OT_STOP);" in gl and "this->push_istream(next_stream);" in gl and "this->pop_istream();" in gl,
+         "PHRQ_io.cpp get_line")
+    b = squeeze(body_of(pio, "clear_istream"))
+    fact("clear_istream_pops_everything", b == "while(istream_list.size()>0){pop_istream();}", "PHRQ_io.cpp clear_istream")
     b = squeeze(body_of(ip, "update_errors", "IPhreeqc"))
     fact("update_errors_fills_strings_and_lines_from_reporters",
          "this->ErrorLines.clear();this->ErrorString=((CErrorReporter<std::ostringstream>*)this->ErrorReporter)->GetOS()->str();" in b and
